@@ -738,7 +738,9 @@ func schedSpace(tier string) mck.Space {
 func agingSpace(tier string) mck.Space {
 	flowh.InstallExtra()
 	ages := []int64{0, 1, 59, 60, 61, 299, 300, 301, 599, 600, 601, 1799, 1800, 1801, 3599, 3600, 3601, 7200, 86399, 86400, 86401, 7 * 86400, 30 * 86400, 400 * 86400}
-	orders := []string{"announce, wait, data", "announce v0, wait, announce, wait, data", "announce, dump, wait, load, data", "announce, wait, peer lookup", "announce, wait, dump, load, data"}
+	orders := []string{"announce, wait, data", "announce v0, wait, announce, wait, data", "announce, dump, wait, load, data", "announce, wait, peer lookup", "announce, wait, dump, load, data",
+		// house-keeping that runs when OTHER templates arrive (a sweep on insert) must not take this one away
+		"announce, wait, 96 other exporters announce, data"}
 	vers := versions()
 	dims := mck.Radix{2, uint64(len(ages)), uint64(len(orders)), uint64(len(vers))}
 	return mck.FuncSpace{N: dims.Size(), F: func(idx uint64, c *mck.Ctx) {
@@ -815,6 +817,15 @@ func agingSpace(tier string) mck.Space {
 			venv.AdvanceReal(age)
 			dump()
 			load()
+			data()
+		case 5:
+			ann(v)
+			venv.AdvanceReal(age)
+			for i := 0; i < 96; i++ { // enough distinct exporters to reach every shard
+				o := net.IPv4(198, 51, 100, byte(i+1))
+				t := ref.Template{ID: e.keys[0].id, Fields: e.vers[(v+1)%5]}
+				flowh.Decode(e.v9, o, (&ref.Msg{V9: e.v9, Hdr: [5]uint32{1, 1, 1, 1, 1}, Sets: []ref.Set{{Kind: ref.SetTemplates, Templates: []ref.Template{t}}}}).Encode(nil), cc)
+			}
 			data()
 		}
 		c.Nontrivial(mck.HashStr(proto, order, fmt.Sprint(ages[d[1]], v)))
